@@ -93,8 +93,18 @@ def cases(ctx):
                     return np.where(rng.random(n) < 0.75, float(rng.choice([-0.0, -0.0, 0.0])), rng.choice([0.0, -0.0, 0.1, -0.1, 0.5], n))
                 pos, neg, kind = zeros_mostly(int(rng.integers(1, 14))), zeros_mostly(int(rng.integers(1, 14))), "negzero"
             mode = MODES[int(rng.choice([2, 3, 8]))]
-        yield {"pos": pos, "neg": neg, "ep": ep, "en": en, "sc": sc, "ec": ec, "kind": kind, "mode": list(mode), "K": K,
-               "_seed": int(rng.integers(1 << 31))}
+        case = {"pos": pos, "neg": neg, "ep": ep, "en": en, "sc": sc, "ec": ec, "kind": kind, "mode": list(mode), "K": K,
+                "_seed": int(rng.integers(1 << 31))}
+        if i % 25 == 13:
+            # the requested fraction as an exact number (fractions.Fraction / decimal.Decimal from a parsed configuration): int(r * k) is then
+            # exact, also where the binary product falls just short of the integer (0.29 * 100 = 28.999999999999996)
+            n1, n2 = (int(x) for x in rng.choice([20, 25, 40, 50, 100, 200], 2))
+            bad = [k for k in range(3, 98) if int((k / 100) * n1) != (k * n1) // 100 or int((k / 100) * n2) != (k * n2) // 100]
+            k = int(rng.choice(bad)) if bad and rng.random() < 0.8 else int(rng.integers(3, 98))
+            allv_ = rng.permutation(n1 + n2).astype(float) * 0.5 - 3.0
+            case.update(pos=allv_[:n1], neg=allv_[n1:], ep=int(rng.choice([0, 100, 300, 700])), en=int(rng.choice([0, 100, 200])), kind="propfrac", K=6,
+                        mode=["proportion", None, False, k / 100], ratio_form=str(rng.choice(["fraction", "decimal"])), ratio_pct=k)
+        yield case
 
 
 def scenarios(ctx):
@@ -134,6 +144,14 @@ def execute(ctx, case):
         roc_with_ci(s, nb_points=6, config=BootstrapConfig(nb_samples=15))
         s.bootstrap_ci("eer", config=BootstrapConfig(nb_samples=15, bootstrap_method="quantile", stratified_sampling="by_label"))
         return True
+    if case.get("ratio_form") == "fraction":
+        from fractions import Fraction
+
+        ratio = Fraction(int(case["ratio_pct"]), 100)
+    elif case.get("ratio_form") == "decimal":
+        from decimal import Decimal
+
+        ratio = Decimal(int(case["ratio_pct"])) / Decimal(100)
     cfg = BootstrapConfig(sampling_method=method, stratified_sampling=strat, smoothing=smoothing, ratio=ratio)
     K = case["K"]
     stat = case["kind"].startswith("stat")
